@@ -43,6 +43,7 @@ var pool = []pv{
 	exact("9223372036854775807", "num-str", "9223372036854775807"), exact("9223372036854775808", "num-str", "9223372036854775808"),
 	exact("-9223372036854775808", "num-str", "-9223372036854775808"), exact("-9223372036854775809", "num-str", "-9223372036854775809"),
 	exact("100000000000000000000000000", "num-str", "100000000000000000000000000"),
+	exact("5000000000000000000", "num-str", "5000000000000000000"), exact("-5000000000000000000", "num-str", "-5000000000000000000"),
 	exact("1/2", "num-str", "1/2"), exact("-3/7", "num-str", "-3/7"), exact("0/5", "num-str", "0"), {Src: "1/0", Kind: "num-str"},
 	{Src: "1.5", Kind: "num-str"}, {Src: "0.0", Kind: "num-str"}, {Src: "-0.0", Kind: "num-str"}, {Src: "1e3", Kind: "num-str"},
 	{Src: "1e308", Kind: "num-str"}, {Src: "1e-320", Kind: "num-str"}, {Src: "1e1000", Kind: "num-str"},
@@ -61,6 +62,7 @@ var pool = []pv{
 	{Src: "[]", Kind: "list"}, {Src: "[a]", Kind: "list"}, {Src: "[a b c]", Kind: "list"}, {Src: "[[a] [b [c]]]", Kind: "list"},
 	{Src: "[(num 1) (num 2)]", Kind: "list"}, {Src: "[1 -1 nan]", Kind: "list"}, {Src: `["\xff" '']`, Kind: "list"}, {Src: "[[&a=b] $nil { }]", Kind: "list"},
 	{Src: "[--flag -x=1 -- rest]", Kind: "list"}, {Src: "[[a b] [c]]", Kind: "list"}, {Src: "[[&short=a &long=bc &arg-required=$true]]", Kind: "list"},
+	{Src: dupSpecs, Kind: "list"}, {Src: badNameSpecs, Kind: "list"}, {Src: "[[a 1 d] [b x d] [c $true d]]", Kind: "list"},
 	{Src: "[&]", Kind: "map"}, {Src: "[&a=b]", Kind: "map"}, {Src: "[&a=[&b=[c]]]", Kind: "map"}, {Src: "[&[a]=b &(num 1)=x]", Kind: "map"},
 	{Src: "[&r=x &w=y]", Kind: "map"}, {Src: "[&name=a &url=b &method=git]", Kind: "map"}, {Src: "(ns [&a=b])", Kind: "misc"},
 	// callables with assorted arities
@@ -68,7 +70,7 @@ var pool = []pv{
 	{Src: "{|a @b c| put $c }", Kind: "fn"}, {Src: "{|&o=1| put $o }", Kind: "fn", Nullary: true}, {Src: "{ fail x }", Kind: "fn", Nullary: true}, {Src: "{|a| fail $a }", Kind: "fn"},
 	{Src: "{|a| put $a $a }", Kind: "fn"}, {Src: "{|a b| put $true }", Kind: "fn"}, {Src: "{|a b| put x }", Kind: "fn"}, {Src: "{ return }", Kind: "fn", Nullary: true},
 	{Src: "{|a| break }", Kind: "fn"}, {Src: "{|a| put [$a] }", Kind: "fn"}, {Src: "$nop~", Kind: "fn", Nullary: true}, {Src: "$put~", Kind: "fn", Nullary: true},
-	{Src: "$fail~", Kind: "fn"}, {Src: "$'+~'", Kind: "fn", Nullary: true}, {Src: "$str:repeat~", Kind: "fn"},
+	{Src: "$fail~", Kind: "fn"}, {Src: dupOptFn, Kind: "fn", Nullary: true}, {Src: "$'+~'", Kind: "fn", Nullary: true}, {Src: "$str:repeat~", Kind: "fn"},
 	// other value kinds
 	{Src: "(styled a red)", Kind: "misc"}, {Src: "(styled-segment a &bold)", Kind: "misc"}, {Src: "$verif:pipe", Kind: "misc"},
 	{Src: "$verif:pipe[r]", Kind: "misc"}, {Src: "(src)", Kind: "misc"}, {Src: "(make-map [[a b]])", Kind: "map"},
